@@ -18,6 +18,7 @@ import (
 	"github.com/coredhcp/coredhcp/plugins"
 	"github.com/coredhcp/coredhcp/plugins/allocators"
 	"github.com/coredhcp/coredhcp/plugins/allocators/bitmap"
+	"github.com/coredhcp/coredhcp/verifhook"
 	"github.com/insomniacslk/dhcp/dhcpv4"
 )
 
@@ -52,6 +53,9 @@ func (p *PluginState) Handler4(req, resp *dhcpv4.DHCPv4) (*dhcpv4.DHCPv4, bool) 
 	p.Lock()
 	defer p.Unlock()
 	record, ok := p.Recordsv4[req.ClientHWAddr.String()]
+	if verifhook.On {
+		verifhook.Point("range.lookup", &p.Mutex, req.ClientHWAddr.String(), ok)
+	}
 	hostname := req.HostName()
 	if !ok {
 		// Allocating new address since there isn't one allocated
@@ -59,6 +63,9 @@ func (p *PluginState) Handler4(req, resp *dhcpv4.DHCPv4) (*dhcpv4.DHCPv4, bool) 
 		ip, err := p.allocator.Allocate(net.IPNet{})
 		if err != nil {
 			log.Errorf("Could not allocate IP for MAC %s: %v", req.ClientHWAddr.String(), err)
+			if verifhook.On {
+				verifhook.Point("range.drop", &p.Mutex, req.ClientHWAddr.String())
+			}
 			return nil, true
 		}
 		rec := Record{
@@ -87,6 +94,9 @@ func (p *PluginState) Handler4(req, resp *dhcpv4.DHCPv4) (*dhcpv4.DHCPv4, bool) 
 	resp.YourIPAddr = record.IP
 	resp.Options.Update(dhcpv4.OptIPAddressLeaseTime(p.LeaseTime.Round(time.Second)))
 	log.Printf("found IP address %s for MAC %s", record.IP, req.ClientHWAddr.String())
+	if verifhook.On {
+		verifhook.Point("range.reply", &p.Mutex, req.ClientHWAddr.String(), record.IP.String(), record.expires)
+	}
 	return resp, false
 }
 
